@@ -466,6 +466,36 @@ def through_traits(ctx, res):
            and norm(n.value) == "self.__dict__"]
     res.oblige(not raw, "copy_traits:raw", mod.loc(fn),
                "copy_traits writes into self.__dict__ directly")
+    # delegates and properties are copied last (their targets first): the
+    # deferral is decided on the trait *as declared* - `.trait(name)` - not
+    # on base_trait(), which resolves a delegate to its target's trait
+    dtests = [n for n in ast.walk(fn) if isinstance(n, ast.Compare)
+              and len(n.ops) == 1 and isinstance(n.ops[0], ast.In)
+              and norm(n.comparators[0]) == "DeferredCopy"]
+    if not dtests:
+        raise AnalysisError("copy_traits: DeferredCopy test not found")
+    ldefs = {}
+    for a in ast.walk(fn):
+        if isinstance(a, ast.Assign) and len(a.targets) == 1 \
+                and isinstance(a.targets[0], ast.Name):
+            ldefs.setdefault(a.targets[0].id, []).append(a.value)
+    for t in dtests:
+        e = t.left
+        chain = norm(e)
+        for _ in range(4):
+            names = [x.id for x in ast.walk(e) if isinstance(x, ast.Name)
+                     and x.id in ldefs]
+            if not names:
+                break
+            e = ldefs[names[0]][0]
+            chain += " <- " + norm(e)
+        res.oblige(".trait(" in chain and ".base_trait(" not in chain,
+                   "copy_traits:deferred-on-declared-trait", mod.loc(t),
+                   f"the deferred-copy decision is taken on `{chain[:90]}`: "
+                   f"it must look at the declared trait (`.trait(name).type`)"
+                   f"; base_trait() resolves a delegate to its target, so "
+                   f"delegates are copied before their targets and a locally "
+                   f"overridden PrototypedFrom value is silently lost")
     # deep copy mode honoured: value passes through copy_module.deepcopy on
     # the deep path
     deep = [c for c in ast.walk(fn) if isinstance(c, ast.Call)
@@ -521,6 +551,35 @@ def through_traits(ctx, res):
                "order, so a PrototypedFrom override is assigned before the "
                "Instance trait holding its prototype and unpickling raises "
                "DelegationError")
+    # only *locally overridden* delegate values are state: they are read
+    # from the instance dictionary under a membership test, never through
+    # the delegation (a value read through it would be written back by
+    # __setstate__ as a local override and stop following its prototype)
+    dcalls = [n for n in ast.walk(dst) if isinstance(n, ast.Call) and any(
+        k.arg == "type" and norm(k.value) == "'delegate'"
+        for k in n.keywords)]
+    dict_vars = {a.targets[0].id for a in ast.walk(fn)
+                 if isinstance(a, ast.Assign) and len(a.targets) == 1
+                 and isinstance(a.targets[0], ast.Name)
+                 and norm(a.value).endswith(".__dict__")}
+    reads_dict = any(isinstance(n, ast.Subscript) and (
+        norm(n.value).endswith(".__dict__") or norm(n.value) in dict_vars)
+        for n in ast.walk(dst))
+    filtered = any(isinstance(n, ast.Compare) and len(n.ops) == 1
+                   and isinstance(n.ops[0], ast.In) and (
+                       norm(n.comparators[0]).endswith(".__dict__")
+                       or norm(n.comparators[0]) in dict_vars)
+                   for n in ast.walk(dst))
+    names_only = all(isinstance(c.func, ast.Attribute)
+                     and c.func.attr == "trait_names" for c in dcalls)
+    res.oblige(names_only and reads_dict and filtered,
+               "__getstate__:delegates-local-only", mod.loc(dst),
+               "delegate values must be taken from self.__dict__ for the "
+               "names that are in it (local overrides); reading them with "
+               "trait_get()/getattr goes through the delegation, and "
+               "__setstate__ then freezes the prototype's value as a local "
+               "override - the unpickled object no longer follows its "
+               "prototype")
     fn = repo.func(HT, "HasTraits.__reduce_ex__")
     res.oblige(any(is_self_call(c, "__getstate__") for c in ast.walk(fn)),
                "__reduce_ex__:getstate", mod.loc(fn),
